@@ -518,6 +518,20 @@ module Z =
     | Lt -> true
     | _ -> false
 
+  (** val geb : z -> z -> bool **)
+
+  let geb x y =
+    match compare x y with
+    | Lt -> false
+    | _ -> true
+
+  (** val gtb : z -> z -> bool **)
+
+  let gtb x y =
+    match compare x y with
+    | Gt -> true
+    | _ -> false
+
   (** val eqb : z -> z -> bool **)
 
   let eqb x y =
@@ -597,6 +611,11 @@ module Z =
           | Z0 -> ((opp q0), Z0)
           | _ -> ((opp (add q0 (Zpos XH))), (sub b r)))
        | Zneg b' -> let (q0, r) = pos_div_eucl a' (Zpos b') in (q0, (opp r)))
+
+  (** val modulo : z -> z -> z **)
+
+  let modulo a b =
+    let (_, r) = div_eucl a b in r
 
   (** val ggcd : z -> z -> z * (z * z) **)
 
@@ -927,6 +946,12 @@ let nq n =
 
 let qb q0 =
   negb (Z.eqb q0.qnum Z0)
+
+(** val bq : bool -> q **)
+
+let bq = function
+| true -> { qnum = (Zpos XH); qden = XH }
+| false -> { qnum = Z0; qden = XH }
 
 (** val qqc : q -> qc **)
 
@@ -1260,6 +1285,172 @@ let order_dispatch = function
    | XH -> Some (S O))
 | Zneg _ -> None
 
+(** val rep : z list -> z -> z list **)
+
+let rep l n =
+  concat (repeat l (Z.to_nat n))
+
+(** val shape_eqb : z list -> z list -> bool **)
+
+let rec shape_eqb a b =
+  match a with
+  | [] -> (match b with
+           | [] -> true
+           | _ :: _ -> false)
+  | x :: a' ->
+    (match b with
+     | [] -> false
+     | y :: b' -> (&&) (Z.eqb x y) (shape_eqb a' b'))
+
+(** val all_eqb : z list -> bool **)
+
+let all_eqb = function
+| [] -> false
+| x :: r -> forallb (Z.eqb x) r
+
+(** val gen_spatial_shape : z -> z -> z list **)
+
+let gen_spatial_shape d n =
+  rep (n :: []) d
+
+(** val base_call_raises : z -> z -> z -> z list -> bool **)
+
+let base_call_raises c d n u =
+  negb (shape_eqb u (app (c :: []) (gen_spatial_shape d n)))
+
+(** val repeated_call_raises : z -> z -> z -> z list -> bool **)
+
+let repeated_call_raises c d n u =
+  negb (shape_eqb u (app (c :: []) (gen_spatial_shape d n)))
+
+(** val poisson_call_raises : z -> z -> z list -> bool **)
+
+let poisson_call_raises d n f =
+  negb (shape_eqb (skipn (S O) f) (gen_spatial_shape d n))
+
+(** val laplace_order_raises : z -> bool **)
+
+let laplace_order_raises order =
+  negb (Z.eqb (Z.modulo order (Zpos (XO XH))) Z0)
+
+(** val gip_raises : z -> z -> z list -> bool **)
+
+let gip_raises order d velocity =
+  (||) (negb (Z.eqb (Z.modulo order (Zpos (XO XH))) (Zpos XH)))
+    ((&&) (negb (negb (Z.eqb (Z.modulo order (Zpos (XO XH))) (Zpos XH))))
+      (negb (shape_eqb velocity (d :: []))))
+
+(** val make_incompressible_raises : z list -> bool **)
+
+let make_incompressible_raises field =
+  negb (Z.eqb (nth O field Z0) (Z.of_nat (length (skipn (S O) field))))
+
+(** val ifft_raises : z -> bool -> bool -> z list -> bool **)
+
+let ifft_raises d d_none n_none field_hat =
+  (&&) n_none
+    (negb
+      (Z.geb
+        (if d_none then Z.sub (Z.of_nat (length field_hat)) (Zpos XH) else d)
+        (Zpos (XO XH))))
+
+(** val ic_options_raise : bool -> bool -> bool -> bool **)
+
+let ic_options_raise zero_mean std_one max_one =
+  (||) ((&&) (negb zero_mean) std_one)
+    ((&&) (negb ((&&) (negb zero_mean) std_one)) ((&&) std_one max_one))
+
+(** val spatial_norm_raises : bool -> z -> bool **)
+
+let spatial_norm_raises ref_none mode =
+  (||) ((&&) ref_none (Z.eqb mode (Zpos XH)))
+    ((&&) ((&&) ref_none (negb (Z.eqb mode (Zpos XH))))
+      (Z.eqb mode (Zpos (XO XH))))
+
+(** val fourier_norm_raises : bool -> z -> bool **)
+
+let fourier_norm_raises ref_none mode =
+  (&&) ref_none (Z.eqb mode (Zpos XH))
+
+(** val general_nonlin_raises : z -> bool **)
+
+let general_nonlin_raises scale_len =
+  negb
+    (Z.eqb (Z.of_nat (length (repeat Z0 (Z.to_nat scale_len)))) (Zpos (XI
+      XH)))
+
+(** val general_nonlin_stepper_raises : z -> bool **)
+
+let general_nonlin_stepper_raises coef_len =
+  negb
+    (Z.eqb (Z.of_nat (length (repeat Z0 (Z.to_nat coef_len)))) (Zpos (XI XH)))
+
+(** val vorticity_conv_raises : z -> bool **)
+
+let vorticity_conv_raises d =
+  negb (Z.eqb d (Zpos (XO XH)))
+
+(** val projected_conv_raises : z -> bool **)
+
+let projected_conv_raises d =
+  negb (Z.eqb d (Zpos (XI XH)))
+
+(** val ns_vorticity_raises : z -> bool **)
+
+let ns_vorticity_raises d =
+  negb (Z.eqb d (Zpos (XO XH)))
+
+(** val kolmogorov_vorticity_raises : z -> bool **)
+
+let kolmogorov_vorticity_raises d =
+  negb (Z.eqb d (Zpos (XO XH)))
+
+(** val ns_velocity_raises : z -> bool **)
+
+let ns_velocity_raises d =
+  negb (Z.eqb d (Zpos (XI XH)))
+
+(** val kolmogorov_velocity_raises : z -> bool **)
+
+let kolmogorov_velocity_raises d =
+  negb (Z.eqb d (Zpos (XI XH)))
+
+(** val general_vorticity_raises : z -> bool **)
+
+let general_vorticity_raises d =
+  negb (Z.eqb d (Zpos (XO XH)))
+
+(** val gray_scott_raises : z list -> bool **)
+
+let gray_scott_raises u_hat =
+  negb (Z.eqb (nth O u_hat Z0) (Zpos (XO XH)))
+
+(** val convection_cons_raises : z -> z list -> bool **)
+
+let convection_cons_raises d u_hat =
+  negb (Z.eqb (nth O u_hat Z0) d)
+
+(** val convection_noncons_raises : z -> z list -> bool **)
+
+let convection_noncons_raises d u_hat =
+  negb (Z.eqb (nth O u_hat Z0) d)
+
+(** val random_sine_raises : z -> bool -> bool -> bool -> bool **)
+
+let random_sine_raises d offset_zero std_one max_one =
+  (||)
+    ((||) (negb (Z.eqb d (Zpos XH)))
+      ((&&) (negb (negb (Z.eqb d (Zpos XH))))
+        ((&&) (negb offset_zero) std_one)))
+    ((&&)
+      ((&&) (negb (negb (Z.eqb d (Zpos XH))))
+        (negb ((&&) (negb offset_zero) std_one))) ((&&) std_one max_one))
+
+(** val stack_sub_raises : z -> z list -> bool **)
+
+let stack_sub_raises sub_len lens =
+  (||) (negb (all_eqb lens)) (Z.gtb sub_len (hd Z0 lens))
+
 (** val aff : z -> z -> z -> z **)
 
 let aff a b u =
@@ -1544,6 +1735,124 @@ let run_c02 sub0 a =
             (triples (take_cx (skipn (S (S (S (S O)))) a)))) :: []))
   | _ -> []
 
+(** val zs : q list -> z list **)
+
+let zs l =
+  map qz l
+
+(** val run_c20 : z -> q list -> q list **)
+
+let run_c20 sub0 a =
+  let z0 = fun i -> qz (getq a i) in
+  let b = fun i -> qb (getq a i) in
+  let r = fun x -> (bq x) :: [] in
+  (match sub0 with
+   | Zpos p ->
+     (match p with
+      | XI p0 ->
+        (match p0 with
+         | XI p1 ->
+           (match p1 with
+            | XI p2 ->
+              (match p2 with
+               | XH ->
+                 r
+                   (random_sine_raises (z0 O) (b (S O)) (b (S (S O)))
+                     (b (S (S (S O)))))
+               | _ -> [])
+            | XO p2 ->
+              (match p2 with
+               | XH -> r (general_nonlin_raises (z0 O))
+               | _ -> [])
+            | XH ->
+              r
+                (ifft_raises (z0 O) (b (S O)) (b (S (S O)))
+                  (zs (skipn (S (S (S O))) a))))
+         | XO p1 ->
+           (match p1 with
+            | XI p2 ->
+              (match p2 with
+               | XH ->
+                 let d = z0 (S O) in
+                 r
+                   (match z0 O with
+                    | Z0 -> ns_vorticity_raises d
+                    | Zpos p3 ->
+                      (match p3 with
+                       | XI p4 ->
+                         (match p4 with
+                          | XI _ -> projected_conv_raises d
+                          | XO p5 ->
+                            (match p5 with
+                             | XH -> kolmogorov_velocity_raises d
+                             | _ -> projected_conv_raises d)
+                          | XH -> vorticity_conv_raises d)
+                       | XO p4 ->
+                         (match p4 with
+                          | XI _ -> projected_conv_raises d
+                          | XO p5 ->
+                            (match p5 with
+                             | XH -> ns_velocity_raises d
+                             | _ -> projected_conv_raises d)
+                          | XH -> general_vorticity_raises d)
+                       | XH -> kolmogorov_vorticity_raises d)
+                    | Zneg _ -> projected_conv_raises d)
+               | _ -> [])
+            | XO p2 ->
+              (match p2 with
+               | XH -> r (spatial_norm_raises (b O) (z0 (S O)))
+               | _ -> [])
+            | XH -> r (gip_raises (z0 O) (z0 (S O)) (zs (skipn (S (S O)) a))))
+         | XH ->
+           r (poisson_call_raises (z0 O) (z0 (S O)) (zs (skipn (S (S O)) a))))
+      | XO p0 ->
+        (match p0 with
+         | XI p1 ->
+           (match p1 with
+            | XI p2 ->
+              (match p2 with
+               | XH ->
+                 let d = z0 (S O) in
+                 let sh = zs (skipn (S (S O)) a) in
+                 r
+                   (match z0 O with
+                    | Z0 -> convection_cons_raises d sh
+                    | Zpos p3 ->
+                      (match p3 with
+                       | XH -> convection_noncons_raises d sh
+                       | _ -> gray_scott_raises sh)
+                    | Zneg _ -> gray_scott_raises sh)
+               | _ -> [])
+            | XO p2 ->
+              (match p2 with
+               | XH -> r (fourier_norm_raises (b O) (z0 (S O)))
+               | _ -> [])
+            | XH -> r (make_incompressible_raises (zs a)))
+         | XO p1 ->
+           (match p1 with
+            | XI p2 ->
+              (match p2 with
+               | XH -> r (general_nonlin_stepper_raises (z0 O))
+               | _ -> [])
+            | XO p2 ->
+              (match p2 with
+               | XI _ -> []
+               | XO p3 ->
+                 (match p3 with
+                  | XH -> r (stack_sub_raises (z0 O) (zs (skipn (S O) a)))
+                  | _ -> [])
+               | XH -> r (ic_options_raise (b O) (b (S O)) (b (S (S O)))))
+            | XH -> r (laplace_order_raises (z0 O)))
+         | XH ->
+           r
+             (repeated_call_raises (z0 O) (z0 (S O)) (z0 (S (S O)))
+               (zs (skipn (S (S (S O))) a))))
+      | XH ->
+        r
+          (base_call_raises (z0 O) (z0 (S O)) (z0 (S (S O)))
+            (zs (skipn (S (S (S O))) a))))
+   | _ -> [])
+
 (** val run : z -> q list -> q list **)
 
 let run id a =
@@ -1559,7 +1868,15 @@ let run id a =
                         | XH -> run_c14 sub0 a
                         | _ -> [])
             | _ -> [])
-         | XO _ -> []
+         | XO p1 ->
+           (match p1 with
+            | XI p2 ->
+              (match p2 with
+               | XO p3 -> (match p3 with
+                           | XH -> run_c20 sub0 a
+                           | _ -> [])
+               | _ -> [])
+            | _ -> [])
          | XH -> run_c02 sub0 a)
       | _ -> [])
    | _ -> [])
